@@ -527,7 +527,7 @@ func (fv *FnVerifier) callWritesBase(c *ssa.CallCommon) (keys []string, all bool
 	name := calleeName(fn)
 	if strings.HasPrefix(name, "(*"+atomicPkg+".") && len(c.Args) > 0 {
 		// atomic cells: the write (if any) goes to the field holding the cell
-		if mdl, ok := models[name]; ok && len(mdl.writes(fv)) == 0 && !strings.HasSuffix(name, ".Set") && !strings.HasSuffix(name, ".Unset") {
+		if mdl, ok := models[name]; ok && len(mdl.writes(fv)) == 0 && !strings.HasSuffix(name, ".Set") && !strings.HasSuffix(name, ".Unset") && !strings.HasSuffix(name, ".Toggle") {
 			return nil, false
 		}
 		return fv.keysOfAddr(c.Args[0]), false
@@ -1061,7 +1061,9 @@ func (fv *FnVerifier) builtinAppend(c *ssa.CallCommon, args []Val, st *State, po
 		// the in-place case writes the caller-visible backing array
 		alts := []string{"(not " + fits + ")", "(= " + n + " " + m.idx(0) + ")", "(>= (sbase " + sN + ") alloc0)"}
 		for _, t := range fv.myTargets() {
-			if t.key == key {
+			if t.key == key && t.whole {
+				alts = append(alts, "true") // allelems(): every backing array of this element type may change
+			} else if t.key == key {
 				alts = append(alts, "(= (sbase "+sN+") "+t.ref+")")
 			}
 		}
